@@ -105,6 +105,13 @@ def vkey(spec, o, c):
         row, mn, sh, clause = '*', '*', '67 prefix on an mm/xmm instruction', 'C01.address-size'
     elif clause == 'C01.size' and simd and len(spec['pfx']) >= 2 and spec['opc'][0] == '0F':
         row, mn, sh = '*', '*', 'SSE memory operand size when a second prefix is present'
+    elif clause in ('C01.kind', 'C01.reg') and simd and len(spec['pfx']) >= 2 and any(p in (0xF2, 0xF3, 0x66) for p in spec['pfx']):
+        row, mn, sh = '*', '*', 'MMX/SSE operand form when a second prefix accompanies the mandatory prefix'
+    elif clause == 'C01.seg' and 1 <= c['op'] <= len(spec['ops']) and spec['ops'][c['op'] - 1]['k'] == 'mem' \
+            and spec['ops'][c['op'] - 1]['b'] == -1 and spec['ops'][c['op'] - 1]['i'] in (4, 5) and spec['ops'][c['op'] - 1]['sc'] == 1 \
+            and spec['ops'][c['op'] - 1]['seg'] == '':
+        # SIB with index ebp, scale 1 and no base: DS-relative; shown as [ebp+disp], which denotes the SS-relative base form
+        row, mn, sh = '*', '*', 'index*1 without base shown as a base register'
     return {'clause': clause, 'row': row, 'mn': mn, 'shape': sh}
 
 
